@@ -86,7 +86,7 @@ def scenario(ns, inp):
             def send(d):
                 if st[0]:
                     st[0] = False
-                    conn.accept = [0] if inp["acc0"] == 0 else [10, 0, 0]
+                    conn.accept = [0] if inp["acc0"] == 0 else [10] + [0] * 6  # a client that reads slowly: the closing response drains over several polls
                 return orig(d)
             conn.send = send
         sysm.run()
